@@ -360,3 +360,64 @@ def sync_fns(prog, env):
             if len(calls) >= 2 and tups:
                 anc = f
     return parent, anc
+
+
+def simple_sender_rules(prog, env, R, rid, tag):
+    """SimpleSender is best effort, but a per-peer connection task that died (its loop exits on connect/write errors)
+    must be replaced: otherwise every later request/reply to that peer is silently discarded.  And the `lucky` peer
+    selection must shuffle before it truncates."""
+    from .paths import enum_paths, TooManyPaths
+    from .analysis import show
+    SS = "network::simple_sender::SimpleSender"
+    snd = prog.fn(SS + "::send")
+    if not R.judge(snd is not None, rid, "anchor SimpleSender::send" + tag, "", "", "anchor-missing", reason="anchor-missing"):
+        return
+    ctx = env.ctx(snd)
+    try:
+        paths = enum_paths(ctx, snd.body)
+    except TooManyPaths:
+        paths = None
+    bad = []
+    n_paths = 0
+    for p in (paths or []):
+        if p.exit == "panic":
+            continue
+        n_paths += 1
+        sends = [e for e in p.events if e["k"] == "mcall" and MPSC_SEND in callee_paths(e)]
+        spawns = [e for e in p.events if e["k"] in ("call", "mcall") and any(q.endswith("::spawn_connection") for q in callee_paths(e))]
+        if not sends:
+            bad.append("[%s]: nothing is sent" % show(p.cond())[:100])
+            continue
+        last = sends[-1]
+        ok_atoms = ("ok(%s)" % ctx.term(last), "c:%s.is_ok()" % ctx.term(last))
+        succeeded = any(a in ok_atoms for a in _pos_atoms(p.cond()))
+        fresh = bool(spawns) and p.events.index(spawns[-1]) < p.events.index(last)
+        if not (succeeded or fresh):
+            bad.append("[%s]: the message is handed to a cached connection whose task may have exited, without falling back to a "
+                       "new connection" % show(p.cond())[:120])
+    R.judge(paths is not None and not bad and n_paths >= 2, rid, key(snd, "a dead per-peer connection is replaced before the message is given up" + tag), snd.sp,
+            "%d paths" % n_paths, "; ".join(bad)[:500] or "paths not enumerable")
+    for ty in ("network::simple_sender::SimpleSender", "network::reliable_sender::ReliableSender"):
+        lb = prog.fn(ty + "::lucky_broadcast")
+        if lb is None:
+            continue
+        c2 = env.ctx(lb)
+        fl = env.flow(lb)
+        tr = [n for n in lb.nodes() if n["k"] == "mcall" and n["name"] in ("truncate", "split_off", "drain", "resize")]
+        sh = [n for n in lb.nodes() if n["k"] == "mcall" and n["name"] in ("shuffle", "partial_shuffle", "choose_multiple")]
+        ok = bool(sh) and all(any(d is s_ for d in fl.dominators(t)) for t in tr for s_ in sh[:1])
+        R.judge(ok, rid, key(lb, "random peer subset: shuffle before truncate" + tag), lb.sp, "",
+                "%s::lucky_broadcast truncates the address list before (or without) shuffling it: the 'random' sync peers are a fixed "
+                "prefix, so an unresponsive prefix is retried forever" % ty.rsplit("::", 1)[-1])
+
+
+def _pos_atoms(f):
+    """Atoms that occur positively as top-level conjuncts of f."""
+    if f[0] == "atom":
+        return [f[1]]
+    if f[0] == "and":
+        out = []
+        for x in f[1]:
+            out += _pos_atoms(x)
+        return out
+    return []
